@@ -61,6 +61,15 @@ func hashLabelsMap(labels map[string]string) string {
 	return fmt.Sprintf("{%s}", strings.Join(_labels, ","))
 }
 
+// drainEntries reads what is left of a stage pipeline after the response was ended by an error entry: the
+// stages send on unbuffered channels and would stay blocked - with their rows open - if nobody read on.
+func drainEntries(out chan []shared.LogEntry) {
+	go func() {
+		for range out {
+		}
+	}()
+}
+
 func onErr(err error, res chan model.QueryRangeOutput) {
 	logger.Error(err)
 	res <- model.QueryRangeOutput{
@@ -154,6 +163,7 @@ func (q *QueryRangeService) exportStreamsValue(out chan []shared.LogEntry,
 			}
 			if e.Err != nil {
 				onErr(e.Err, res)
+				drainEntries(out)
 				return
 			}
 			if i == 0 || lastFp != e.Fingerprint {
@@ -253,6 +263,7 @@ func (q *QueryRangeService) QueryRange(ctx context.Context, query string, fromNs
 			for _, e := range entries {
 				if e.Err != nil && e.Err != io.EOF {
 					onErr(e.Err, res)
+					drainEntries(out)
 					return
 				}
 				if e.Err == io.EOF {
@@ -466,6 +477,7 @@ func (q *QueryRangeService) QueryInstant(ctx context.Context, query string, time
 			for _, e := range entries {
 				if e.Err != nil && e.Err != io.EOF {
 					onErr(e.Err, res)
+					drainEntries(out)
 					return
 				}
 				if e.Err == io.EOF {
@@ -608,6 +620,7 @@ func (q *QueryRangeService) Tail(ctx context.Context, query string) (model.IWatc
 					}
 					if e.Err != nil {
 						onErr(e.Err, res.GetRes())
+						drainEntries(out)
 						return
 					}
 					if i == 0 || lastFp != e.Fingerprint {
